@@ -44,3 +44,17 @@ claim("C02",
       "trusts vf/ref/parsers.py; float inputs within 1 us of a unit boundary are not judged; "
       "SAMI runs of identical timespans are not generated (no per-caption reading in SAMI)",
       "DESIGN.md 3/C02")
+claim("C01",
+      "documents built by independent serialisers from generated timestamp spellings; expected "
+      "instants by exact Fraction arithmetic on the spelling; exhaustive MicroDVD-frame / SS:FF "
+      "/ offset sweeps; fresh and reused reader objects",
+      "Generated-input search: ~34k (thorough >1M) documents over the five grammars with every "
+      "lexical form the property lists (hours 0-999 or absent, 0-9 fraction digits, frames, "
+      "h/m/s/ms/f offsets, begin+dur, SAMI back-filled ends and 4 s default, fps headers, "
+      "WebVTT shift/ignore_timing_errors/lang), empty cues, and a reader object that already "
+      "read another document; caption count, order, int type and exact equality of start/end. "
+      "Exhaustive: MicroDVD frames 0..2.16M at 25 fps and 0..500k at 7 rates, all SS:FF pairs, "
+      "offsets k/1000 s for k<1e5.",
+      "trusts vf/ref/timeexpr.py and vf/ref/serial.py; TTML frame rate 30; either neighbour "
+      "accepted for >6 fraction digits",
+      "DESIGN.md 3/C01")
